@@ -321,3 +321,11 @@ Definition arg_local (o : obj) (a : arg) : bool :=
   | _ => true
   end.
 Definition op_local (o : obj) (p : op) : bool := forallb (arg_local o) (op_args p).
+
+(* implementedBy(super(B, x)) = providedBy(super(B, x)) (declarations.py:_implementedBy_super): a
+   synthesized specification whose bases are implementedBy(k) for the classes k that FOLLOW B in
+   the MRO of type(x) (or of x, for super(B, cls)); [rest] is that remainder of the MRO — the
+   MRO is CPython's, the history supplies it (``object`` left out).  The per-class _super_cache
+   must be invisible. *)
+Definition super_implemented (g : igraph) (st : state) (rest : list cls) : list iface :=
+  flat_map (implemented g st) rest.
